@@ -72,6 +72,7 @@ func (m *protoModel) onEvent(ev txh.RegEvent) {
 			return
 		}
 		if ev.Method == "UpdateNoLocksFlip" {
+			nFlipped := len(ev.Handles)
 			hs := append(append([]sop.Handle{}, ev.Handles...), m.pendingAdds[ev.Txn]...)
 			tbs := append(append([]string{}, ev.Tables...), m.pendingTables[ev.Txn]...)
 			ev.Handles, ev.Tables = hs, tbs
@@ -84,9 +85,15 @@ func (m *protoModel) onEvent(ev txh.RegEvent) {
 				s := id.String()
 				p := filepath.Join(m.dir, ev.Tables[i], string(s[0]), string(s[1]), string(s[2]), string(s[3]), s)
 				b, err := os.ReadFile(p)
-				var probe struct{ ID sop.UUID }
+				var probe struct {
+					ID      sop.UUID
+					Version int32
+				}
 				if err != nil || json.Unmarshal(b, &probe) != nil {
 					m.fail("t%d %s: node %s now points at blob %s which does not load (%v)", ev.Txn, ev.Method, short(h.LogicalID), short(id), err)
+				} else if i < nFlipped && probe.Version != h.Version-1 {
+					// the node a commit installs as version v+1 is the one it built from version v
+					m.fail("t%d %s: node %s becomes version %d with a blob that was built from version %d: a successor of an older version was installed over a newer one", ev.Txn, ev.Method, short(h.LogicalID), h.Version, probe.Version)
 				}
 			}
 		}
@@ -180,7 +187,20 @@ func TestC37_NoTwoSuccessors(t *testing.T) {
 					K: rapid.IntRange(0, nSeed+1).Draw(t, "key"), Tag: fmt.Sprintf("w%d.%d", w, tag)})
 			}
 		}
-		schedule := genSchedule(t, nw)
+		mode := rapid.IntRange(0, 5).Draw(t, "scheduleMode") // 0 starve; 1,2 directed; else free-form
+		var schedule []int
+		var directed []txh.Seg
+		switch {
+		case mode == 0:
+			schedule = genStarve(t, nw)
+		case mode <= 2:
+			directed = genDirected(t, nw)
+		default:
+			schedule = genSchedule(t, nw)
+		}
+		// half of the cases: an earlier committed transaction has already UPDATED the nodes (their handles then carry
+		// the marks an update leaves behind), the concurrent writers start from those
+		preUpdate := rapid.Bool().Draw(t, "preUpdate")
 		// a third of the cases: one writer's commit fails at a drawn call of its phase 1 end / phase 2 (the finalising
 		// registry write, the priority log, the store info update): its rollback must put back exactly what it replaced
 		faultTxn, faultSite := -1, ""
@@ -198,6 +218,19 @@ func TestC37_NoTwoSuccessors(t *testing.T) {
 		if _, err := seedStore(e, stores, [][]int{seed}); err != nil {
 			t.Fatalf("HARNESS-ERROR %v", err)
 		}
+		if preUpdate {
+			var ops []txh.Op
+			for _, k := range seed {
+				ops = append(ops, txh.Op{Kind: "update", K: k, Tag: fmt.Sprintf("pre%d", k)})
+			}
+			pm := []*txh.Model{{Unique: true}}
+			for _, k := range seed {
+				pm[0].Add(k, txh.MakeValue(fmt.Sprintf("seed%d", k), 0))
+			}
+			if _, pr := e.RunTxn(txh.TxnProg{Mode: sop.ForWriting, End: "commit", Ops: ops}, stores, pm, txh.RunOpts{}); pr.OpErr != nil || pr.CommitErr != nil {
+				t.Fatalf("HARNESS-ERROR pre-update: %v %v %s", pr.OpErr, pr.CommitErr, pr.Mismatch)
+			}
+		}
 		m := &protoModel{cur: map[sop.UUID]sop.Handle{}, writer: map[sop.UUID]int{}, known: map[sop.UUID]bool{}, dir: e.Dir, reservesBy: map[sop.UUID]map[int]bool{}, pendingAdds: map[int][]sop.Handle{}, pendingTables: map[int][]string{}}
 		// start from the registry's current content
 		if slots, _, err := txh.ReadRegistryRaw(e.Dir, "st0"); err == nil {
@@ -208,7 +241,7 @@ func TestC37_NoTwoSuccessors(t *testing.T) {
 			}
 		}
 		e.OnRegistry = m.onEvent
-		res, s := e.RunConcurrent(stores, progs, schedule, txh.ConcOpts{GateCommits: knownSnapshot, MaxTime: 6 * time.Second, Budget: 60 * time.Second,
+		res, s := e.RunConcurrent(stores, progs, schedule, txh.ConcOpts{GateCommits: knownSnapshot, Strict: mode == 0, Directed: directed, MaxTime: 6 * time.Second, Budget: 60 * time.Second,
 			Fault: func(i int, st txh.Site) txh.Action {
 				if i == faultTxn && !faulted && st.K == 0 && st.Comp+"."+st.Method == faultSite {
 					faulted = true
@@ -217,7 +250,7 @@ func TestC37_NoTwoSuccessors(t *testing.T) {
 				return txh.Action{}
 			}})
 		e.OnRegistry = nil
-		desc := fmt.Sprintf("slot=%d %s seed=%v %s schedule=%s fault=p%d@%s(fired=%v)", slot, txh.PlacementNames[stores[0].Placement], seed, renderProgs(progs), renderSched(schedule), faultTxn, faultSite, faulted)
+		desc := fmt.Sprintf("slot=%d %s seed=%v %s schedule=%s strict=%v directed=[%s] preUpdate=%v fault=p%d@%s(fired=%v)", slot, txh.PlacementNames[stores[0].Placement], seed, renderProgs(progs), renderSchedRLE(schedule), mode == 0, renderSegs(directed), preUpdate, faultTxn, faultSite, faulted)
 		if s.TimedOut {
 			rec.Discard()
 			return
